@@ -523,3 +523,7 @@ CORPUS += [
     V("C10", "mask-stage-inverted-flag", _DECO, "    if mask_logits:\n        assert mask is not None", "    if not mask_logits:\n        assert mask is not None", "C10"),
     V("C10", "eq-top-k-guard-mirrored", _DECO, "    if top_k > 0:\n        top_k = min(", "    if 0 < top_k:\n        top_k = min(", None),
 ]
+CORPUS += [
+    # F56 repaired (re-normalised after the fill): silent
+    V("C10", "eq-f56-repaired-renormalised-after-the-fill", _PD_, '            log_p[~logit_mask] = float("-inf")\n', '            log_p[~logit_mask] = float("-inf")\n            log_p = torch.log_softmax(log_p, dim=1)\n', None),
+]
